@@ -90,8 +90,9 @@ theorem visualizeGraph_wf (ν : Nums) (a : GraphArgs) (d : Drawing) (hν : SafeN
   simp only [Except.ok.injEq] at h
   subst h
   have hcs := getNodeColors_safe hν ha.nodeColor ha.labelColors hcolors
-  exact svgDoc_wf hν _ _ (Inner.append (graphEdges_inner hν a pos ha.edgeColor ha.labelColors hedges)
-    (Inner.append (graphNodes_inner hν _ _ _ hcs hnodes) (namesText_inner hν _ _ _ _ htext)))
+  obtain ⟨he1, he2⟩ := graphEdgeParts_inner hν a pos ha.edgeColor ha.labelColors hedges
+  exact svgDoc_wf hν _ _ (Inner.append (Inner.flatMap_mem _ _ (fun c hc => svgMarker_inner (he1 c hc)))
+    (Inner.append he2 (Inner.append (graphNodes_inner hν _ _ _ hcs hnodes) (namesText_inner hν _ _ _ _ htext))))
 
 /-- every number printed as `#` (what the correspondence runs use) -/
 def νhash : Nums := fun _ _ _ => [35]
